@@ -1047,8 +1047,13 @@ SYMMAP_METHODS = {"get": _m_get, "pop": _m_pop, "copy": _m_copy, "keys": _m_keys
 def _s_add(m, o, args, kw, node):
     m.note_write(o)
     x = m.force(args[0], node)
-    if is_concrete_scalar(x) or isinstance(x, tuple):
+    if _deep_concrete(x) and all(_deep_concrete(y) for y in o.s):
         if x not in o.s:
+            o.s.append(x)
+        return
+    if isinstance(x, tuple):
+        # tuples with symbolic components: membership decided on this path
+        if _s_find(m, o, x, node) is None:
             o.s.append(x)
         return
     if isinstance(x, Sym) and x.k in ("int", "str") and all(m.kind_of(y) in ("int", "str") for y in o.s):
@@ -1064,9 +1069,15 @@ def _s_add(m, o, args, kw, node):
     raise Unsupported("symbolic element added to a concrete set (declare the field as SetT)", node)
 
 
+def _deep_concrete(x):
+    if isinstance(x, tuple):
+        return all(_deep_concrete(y) for y in x)
+    return is_concrete_scalar(x)
+
+
 def _s_find(m, o, x, node):
     """position of x in a concrete set (decided on this path when x is symbolic), else None"""
-    if is_concrete_scalar(x) or isinstance(x, tuple):
+    if _deep_concrete(x) and all(_deep_concrete(y) for y in o.s):
         return o.s.index(x) if x in o.s else None
     for i, y in enumerate(o.s):
         e = m.equal(x, y, node)
@@ -1380,3 +1391,13 @@ def s_infinity(m, args, kw, node):
     from . import lib
 
     return lib.inf_value(m)
+
+
+@specfn("uf")
+def s_uf(m, args, kw, node):
+    """uf(name, *scalars): application of an uninterpreted function (a deterministic but unknown map)"""
+    name = args[0]
+    zs = [m.z(m.force(a, node)) for a in args[1:]]
+    sorts = [z.sort() for z in zs]
+    f = z3.Function("uf_" + str(name), *(sorts + [z3.IntSort()]))
+    return Sym(f(*zs), "str" if kw.get("kind") == "str" else "int")
